@@ -378,6 +378,17 @@ impl Handler for PreferPrimordialsHandler {
         return type_ref.type_name.range().contains(&orig.range());
       }
 
+      // A function or class nested in one of those positions starts over:
+      // `foo(() => new Map()).bar` uses the global `Map`.
+      if matches!(
+        node,
+        ast_view::Node::Function(_)
+          | ast_view::Node::ArrowExpr(_)
+          | ast_view::Node::Class(_)
+      ) {
+        return false;
+      }
+
       match node.parent() {
         None => false,
         Some(parent) => {
